@@ -691,12 +691,10 @@ class Sandboxes:
         """The property predicate in a tree with symbolic links, weak reading: the object an access reaches
         (or would create) is at or below the root - unless the FIRST link the kernel follows on the way sits
         at, above or inside the root (the operator's own links; like FollowSymLinks).  An outside object reached
-        through a link that sits OUTSIDE the root is what the known finding F32 / F32b is about (lexical test,
-        un-normalised string handed to the kernel): reported under that signature only."""
+        through a link that sits OUTSIDE the root (F32 / F32b, repaired: the normalised name goes to the kernel)
+        is a violation like any other."""
         bad = []
-        known_sig = 'F32:static_dotdot_through_outside_symlink' if kind == 'static' else \
-            'F32b:session_dotdot_through_outside_symlink'
-        known_locs, allowed_locs = set(), set()
+        allowed_locs = set()
         passed = None
         for op, path, internal, res in log:
             how, loc, links = self.walk_links(path, follow_last=op not in NOFOLLOW_OPS)
@@ -720,25 +718,20 @@ class Sandboxes:
             shown = '%s(%r) reaches %s, outside the root %s' % (
                 op, path.replace(self.top, '{TOP}'), loc.replace(self.top, '{TOP}'), root.replace(self.top, '{TOP}'))
             if links:
-                known_locs.add(loc)
-                bad.append((shown + ' through the link %s that sits outside the root' % links[0].replace(self.top, '{TOP}'),
-                            known_sig))
-            else:
-                bad.append((shown, 'outside_%s' % ('read' if op in READ_OPS else 'write')))
+                shown += ' through the link %s that sits outside the root' % links[0].replace(self.top, '{TOP}')
+            bad.append((shown, 'outside_%s' % ('read' if op in READ_OPS else 'write')))
         for r in changed:
             p = self.top + '/' + r
             if self._in(p, root) or p in allowed_locs:
                 continue
-            bad.append(('the tree outside the root changed: %s' % r,
-                        known_sig if p in known_locs else 'outside_modified'))
+            bad.append(('the tree outside the root changed: %s' % r, 'outside_modified'))
         if body is not None:
             rel = self.content.get(body)
             if rel is not None:
                 p = self.top + '/' + rel
                 if not (self._in(p, root) or p in allowed_locs):
                     bad.append(('the response body is the content of %s, a file outside the root %s'
-                                % (rel, root.replace(self.top, '{TOP}')),
-                                known_sig if p in known_locs else 'outside_content_served'))
+                                % (rel, root.replace(self.top, '{TOP}')), 'outside_content_served'))
         return bad
 
     def where(self, path):
@@ -1360,16 +1353,9 @@ class Sandboxes:
                'cwd': self.cwd, 'storage': d}
         obs['hist'] = ['sess_unit:op=%s' % op, 'sess_unit:outcome=%s' % outcome,
                        'sess_unit:tmpl=%s' % case.get('tmpl')]
-        # The statement quantifies over cookie values.  A client-supplied id gets past Session.__init__ only
-        # if `_exists()` found its file, so load/save/delete/lock never see an id whose file name does not
-        # even resolve (a missing or non-directory component in the middle).  For such ids only the path the
-        # code itself chose is judged; what filelock does with an unresolvable name (its `mkdir -p` of the
-        # lexical parents) is outside the statement's domain - recorded in docs/C11.md as an observation.
-        fname = os.path.join(os.path.abspath(d), 'session-' + sess._id)
-        if op not in ('exists', 'len') and self.walk(fname)[0] in ('fail', 'nul'):
-            obs['hist'].append('sess_unit:id-unreachable-from-a-cookie')
-            log = [e for e in log if not e[2]]
-            changed = []
+        # Since the F32b repair the methods hand the NORMALISED name to the OS (and to filelock), so every
+        # access of a direct call is judged at full strength, whatever the id (observation 2 is gone: filelock's
+        # `mkdir -p` of the lock file's parents can only create directories below the storage directory).
         obs['oracle'] = self._judge('session', root, log, changed)
         return obs
 
